@@ -265,8 +265,8 @@ def two_pool_spec(r, A, L, act):
 
 
 def plan(tier, seed):
-	n_arch = 160 if tier == "quick" else 5000
-	per = 8 if tier == "quick" else 50
+	n_arch = 160 if tier == "quick" else 40000
+	per = 8 if tier == "quick" else 250
 	units = []
 	for k in range(0, n_arch, per):
 		units.append({"cls": "arch", "k0": k, "k1": min(n_arch, k + per),
